@@ -6,6 +6,30 @@ Two sources, both of the *working tree*:
   * the constructed pyparsing grammar objects themselves (ParserX86ATT().comment/label/directive/
     instruction_parser), dumped structurally and hashed per component -- the hand-written Lean
     model was written for exactly this grammar; a digest that differs breaks `grammar_unchanged`.
+    This is the one DYNAMIC step: `osaca.parser` of $OSACA_REPO is imported in a subprocess and
+    `ParserX86ATT()` is constructed (pure: it only builds pyparsing objects); the dump contains what pyparsing
+    sees (element kinds, literals, character sets, results names, whitespace flags), never Python names.
+
+How the AST part reads (semantically, not by spelling; helpers in `astutil_G4.py`, purely static):
+
+* The grammar literals: `construct_parser` is symbolically executed (`astutil_G4.Interp`) into an expression
+  tree; the plug-in navigates it from `self.instruction_parser`, `self.comment`, `self.label`, `self.directive`,
+  `self.register` by structure and results names.  Local variable names, hoisted / split / inlined
+  sub-expressions, constants bound to names, string spelling, pyparsing's snake_case aliases, alternatives
+  built by loops / comprehensions / helpers do not show; order of alternatives and sequence members, literals,
+  character classes (as written: `pp.<class>` + extra characters, in the order written), `exact`,
+  `excludeChars`, delimiters, results names do.
+* `parse_instruction`: the operand keys are read as `if "k" in result:` blocks, also when written as a loop over
+  a constant table of keys (keys may be formatted from the loop variable), with guard clauses, or as a
+  comprehension; `split(sep)[k]` also as `split(sep, n)[0]` / `partition(sep)[0]`.
+* `parse_line`: the order in which the four grammars are tried (source order of the `parseString` calls), whether
+  nested `if result is None` or guard clauses with early return.
+* `process_memory_address`: variables are named by their *role* (the MemoryOperand keyword their value reaches,
+  `<k>Op` if it passes through RegisterOperand), so renaming or reusing locals does not show; the `scale` default
+  is read from a conditional expression, an if/else statement, a default followed by an `if`, or `.get("scale", d)`.
+* `parse_file`: loop or comprehension (`astutil_G4.read_parse_file`); `enumerate(lines, s)` with `i + c` is
+  normalised to start 0 and constant `s + c` when the index is used for nothing else; the index variable is
+  reported as `i`, the element as `line`.
 """
 import ast
 import hashlib
@@ -13,91 +37,31 @@ import os
 import subprocess
 import sys
 
-import translate as T
-from translate import TranslateError, generator, parse, find_func, txt, txt_list, HEADER
+
+
+def _load_util():
+    """astutil_G4.py next to this file, loaded by path (sys.path is left alone)"""
+    import importlib.util
+    if "astutil_G4" in sys.modules:
+        return sys.modules["astutil_G4"]
+    spec = importlib.util.spec_from_file_location(
+        "astutil_G4", os.path.join(os.path.dirname(os.path.abspath(__file__)), "astutil_G4.py"))
+    mod = importlib.util.module_from_spec(spec)
+    sys.modules["astutil_G4"] = mod
+    spec.loader.exec_module(mod)
+    return mod
+
+
+U = _load_util()
+expect, only, unwrap = U.expect, U.only, U.unwrap
+import translate as T  # noqa: E402
+from translate import TranslateError, generator, parse, txt, txt_list, HEADER  # noqa: E402
 
 SRC = "osaca/parser/parser_x86att.py"
 BASE = "osaca/parser/base_parser.py"
 
 PP_CLASSES = {"alphas", "alphanums", "nums", "hexnums", "printables"}
-
-
-def _assignments(fn):
-    """name -> value node for `x = ...` and `self.x = ...` directly in the function body."""
-    out = {}
-    for node in fn.body:
-        if isinstance(node, ast.Assign) and len(node.targets) == 1:
-            t = node.targets[0]
-            if isinstance(t, ast.Name):
-                out[t.id] = node.value
-            elif isinstance(t, ast.Attribute) and isinstance(t.value, ast.Name) and t.value.id == "self":
-                out["self." + t.attr] = node.value
-    return out
-
-
-def _is_pp_call(node, name):
-    return (
-        isinstance(node, ast.Call)
-        and isinstance(node.func, ast.Attribute)
-        and node.func.attr == name
-        and isinstance(node.func.value, ast.Name)
-        and node.func.value.id == "pp"
-    )
-
-
-def _calls(node, name):
-    """pp.<name>(...) calls below node, in source order."""
-    found = [n for n in ast.walk(node) if _is_pp_call(n, name)]
-    found.sort(key=lambda n: (n.lineno, n.col_offset))
-    return found
-
-
-def _str_arg(call, env, what):
-    if not call.args:
-        raise TranslateError("%s: call without argument" % what)
-    a = call.args[0]
-    if isinstance(a, ast.Constant) and isinstance(a.value, str):
-        return a.value
-    if isinstance(a, ast.Name) and a.id in env and isinstance(env[a.id], ast.Constant) and isinstance(env[a.id].value, str):
-        return env[a.id].value
-    raise TranslateError("%s: argument is not a string literal (line %d)" % (what, call.lineno))
-
-
-def _class_expr(node, what):
-    """pp.alphas + "-_."  ->  ("alphas", "-_.");  pp.nums -> ("nums", "");  "1248" -> ("", "1248")"""
-    if isinstance(node, ast.Constant) and isinstance(node.value, str):
-        return ("", node.value)
-    if isinstance(node, ast.Attribute) and isinstance(node.value, ast.Name) and node.value.id == "pp" and node.attr in PP_CLASSES:
-        return (node.attr, "")
-    if isinstance(node, ast.BinOp) and isinstance(node.op, ast.Add):
-        l = _class_expr(node.left, what)
-        r = _class_expr(node.right, what)
-        if r[0]:
-            raise TranslateError("%s: unexpected character class expression" % what)
-        return (l[0], l[1] + r[1])
-    raise TranslateError("%s: unexpected character class expression (line %d)" % (what, getattr(node, "lineno", 0)))
-
-
-def _word_class(call, what):
-    base, extra = _class_expr(call.args[0], what)
-    excl = ""
-    exact = 0
-    for kw in call.keywords:
-        if kw.arg in ("excludeChars", "exclude_chars") and isinstance(kw.value, ast.Constant):
-            excl = kw.value.value
-        elif kw.arg == "exact" and isinstance(kw.value, ast.Constant):
-            exact = kw.value.value
-        else:
-            raise TranslateError("%s: unexpected Word keyword %s" % (what, kw.arg))
-    if len(call.args) != 1:
-        raise TranslateError("%s: Word with body characters is not modelled" % what)
-    return base, extra, excl, exact
-
-
-def _need(env, name):
-    if name not in env:
-        raise TranslateError("construct_parser: no assignment to %s" % name)
-    return env[name]
+NO_GROUP = lambda n: n.kind != "Group"  # noqa: E731
 
 
 def _grammar_digests():
@@ -167,244 +131,414 @@ def grammar_dump_text():
     return "\n".join(lines) + "\n"
 
 
-@generator("X86Parser", [SRC, BASE])
-def gen_x86parser():
-    tree = parse(SRC)
-    cp = find_func(tree, "construct_parser", "ParserX86ATT")
-    env = _assignments(cp)
+def _word_class(node, what):
+    """Word(...) -> (name of the pp class, extra characters, excludeChars, exact), as written"""
+    expect(node, "Word", what)
+    if len(node.args) != 1:
+        raise TranslateError("%s: Word without / with several character arguments" % what)
+    names, extra = U.charclass(node.args[0], what)
+    if len(names) > 1 or any(n not in PP_CLASSES for n in names):
+        raise TranslateError("%s: unexpected character class expression %r" % (what, names))
+    excl, exact = "", 0
+    for k, v in node.kw.items():
+        if k == "excludeChars" and isinstance(v, str):
+            excl = v
+        elif k == "exact" and isinstance(v, int) and not isinstance(v, bool):
+            exact = v
+        elif k == "bodyChars":
+            raise TranslateError("%s: Word with body characters is not modelled" % what)
+        else:
+            raise TranslateError("%s: unexpected Word keyword %s" % (what, k))
+    return (names[0] if names else ""), extra, excl, exact
 
-    # ---- numbers
-    dec = _need(env, "decimal_number")
-    hexn = _need(env, "hex_number")
-    dec_lits = [_str_arg(c, env, "decimal_number") for c in _calls(dec, "Literal")]
-    hex_lits = [_str_arg(c, env, "hex_number") for c in _calls(hexn, "Literal")]
-    dec_words = [_word_class(c, "decimal_number") for c in _calls(dec, "Word")]
-    hex_words = [_word_class(c, "hex_number") for c in _calls(hexn, "Word")]
-    if len(dec_lits) != 1 or len(dec_words) != 1 or len(hex_lits) != 2 or len(hex_words) != 1:
-        raise TranslateError("decimal_number/hex_number: unexpected shape")
-    if not (_calls(dec, "Combine") and _calls(hexn, "Combine")):
-        raise TranslateError("decimal_number/hex_number: not a Combine")
-    # ---- comment
-    comment = _need(env, "self.comment")
-    comment_syms = [_str_arg(c, env, "comment") for c in _calls(comment, "Literal")]
-    comment_words = [_word_class(c, "comment") for c in _calls(comment, "Word")]
-    if len(comment_words) != 1 or not comment_syms:
-        raise TranslateError("comment: unexpected shape")
-    # ---- identifiers
-    first = _word_class(_calls(_need(env, "first"), "Word")[0], "first")
-    rest = _word_class(_calls(_need(env, "rest"), "Word")[0], "rest")
-    label_rest = _word_class(_calls(_need(env, "label_rest"), "Word")[0], "label_rest")
-    reloc = _need(env, "relocation")
-    reloc_sym = [_str_arg(c, env, "relocation") for c in _calls(reloc, "Literal")]
-    reloc_word = [_word_class(c, "relocation") for c in _calls(reloc, "Word")]
-    id_off = _need(env, "id_offset")
-    id_off_sym = [_str_arg(c, env, "id_offset") for c in _calls(id_off, "Literal")]
-    ident = _need(env, "identifier")
-    delims = []
-    for c in _calls(ident, "delimitedList") + _calls(ident, "DelimitedList"):
-        for kw in c.keywords:
-            if kw.arg == "delim" and isinstance(kw.value, ast.Constant):
-                delims.append(kw.value.value)
-    if len(delims) != 1 or len(reloc_sym) != 1 or len(reloc_word) != 1 or len(id_off_sym) != 1:
-        raise TranslateError("identifier: unexpected shape")
-    num_ident = _need(env, "numeric_identifier")
-    suffixes = []
-    for c in _calls(num_ident, "oneOf") + _calls(num_ident, "one_of"):
-        suffixes = _str_arg(c, env, "numeric_identifier").split()
-        caseless = any(kw.arg == "caseless" and isinstance(kw.value, ast.Constant) and kw.value.value for kw in c.keywords)
-    if not suffixes:
-        raise TranslateError("numeric_identifier: no suffix list")
-    # ---- register
-    reg = _need(env, "self.register")
-    reg_lits = [_str_arg(c, env, "register") for c in _calls(reg, "Literal")]
-    reg_words = [_word_class(c, "register") for c in _calls(reg, "Word")]
-    if not reg_lits or len(reg_words) != 3:
-        raise TranslateError("register: unexpected shape")
-    # ---- immediate
-    imm = _need(env, "immediate")
-    imm_lits = [_str_arg(c, env, "immediate") for c in _calls(imm, "Literal")]
-    if len(imm_lits) != 1:
-        raise TranslateError("immediate: unexpected shape")
-    # ---- scale
-    scale = _word_class(_calls(_need(env, "scale"), "Word")[0], "scale")
-    # ---- memory: literals in order
-    mem = _need(env, "memory")
-    mem_lits = [_str_arg(c, env, "memory") for c in _calls(mem, "Literal")]
-    # ---- directive
-    dirv = _need(env, "self.directive")
-    dir_lits = [_str_arg(c, env, "directive") for c in _calls(dirv, "Literal")]
-    dir_words = [_word_class(c, "directive") for c in _calls(dirv, "Word")]
-    dparam = _need(env, "directive_parameter")
-    dparam_words = [_word_class(c, "directive_parameter") for c in _calls(dparam, "Word")]
-    dparam_lits = [_str_arg(c, env, "directive_parameter") for c in _calls(dparam, "Literal")]
-    if len(dir_lits) != 1 or len(dir_words) != 1 or len(dparam_words) != 1:
-        raise TranslateError("directive: unexpected shape")
-    # ---- mnemonic
-    mn = _need(env, "mnemonic")
-    mn_prefixes = [_str_arg(c, env, "mnemonic") for c in _calls(mn, "Literal")]
-    mn_word = [_word_class(c, "mnemonic") for c in _calls(mn, "Word")]
-    if len(mn_word) != 1:
+
+def _words(node, what, descend=None):
+    return [_word_class(w, what) for w in U.of_kind(node, "Word", descend)]
+
+
+def read_grammar(it):
+    A = it.selfattrs
+    for need in ("instruction_parser", "comment", "label", "directive", "register"):
+        if need not in A or not isinstance(A[need], U.PNode):
+            raise TranslateError("construct_parser: no assignment to self.%s" % need)
+    g = {}
+    # ---- instruction_parser = [prefixes] mnemonic Optional(first("operand1")) Optional(Suppress(",")) ... Optional(comment)
+    ip = expect(A["instruction_parser"], "And", "instruction_parser")
+    pos = [i for i, k in enumerate(ip.kids) if k.name == "mnemonic"]
+    if len(pos) != 1:
         raise TranslateError("mnemonic: unexpected shape")
-    # ---- instruction: operand result names and separators
-    ins = _need(env, "self.instruction_parser")
-    op_names = []
-    for c in ast.walk(ins):
-        if isinstance(c, ast.Call) and isinstance(c.func, ast.Attribute) and c.func.attr in ("setResultsName", "set_results_name"):
-            if c.args and isinstance(c.args[0], ast.Constant):
-                op_names.append((c.lineno, c.col_offset, c.args[0].value))
-    op_names = [n for _, _, n in sorted(op_names)]
-    ins_seps = [_str_arg(c, env, "instruction_parser") for c in _calls(ins, "Literal")]
+    mn = ip.kids[pos[0]]
+    g["mn_prefixes"] = [s for k in ip.kids[:pos[0]] for s in U.literals(k)]
+    g["mn_word"] = _word_class(mn, "mnemonic")
+    slots, seps = [], []
+    for k in ip.kids[pos[0] + 1:]:
+        inner = unwrap(k, "Optional", "instruction_parser member")
+        if inner.name is not None and not inner.same(A["comment"]):
+            slots.append(inner)
+        elif inner.kind == "Suppress" and len(list(U.walk(inner))) == 2 and inner.kids[0].kind == "Literal":
+            seps.append(U.strarg(inner.kids[0], "instruction_parser"))
+        elif inner.same(A["comment"]):
+            pass
+        else:
+            raise TranslateError("instruction_parser: unexpected member %s" % U.show(inner))
+    g["op_names"] = [s.name for s in slots]
+    g["ins_seps"] = seps
+    if not slots:
+        raise TranslateError("instruction_parser: no operand slots")
+    first, rest = slots[0], slots[1:]
+    if any(not r.same(rest[0]) for r in rest):
+        raise TranslateError("instruction_parser: operand slots 2.. do not share one grammar")
+    # first = Group(register ^ immediate ^ memory ^ identifier ^ numeric_identifier)
+    alts = expect(unwrap(first, "Group", "operand_first"), "Or", "operand_first").kids
+    by = {}
+    for a in alts:
+        by.setdefault(a.name, []).append(a)
+    reg = only(by.get(it.class_attr("register_id"), []), "operand_first: register")
+    imm = only(by.get(it.class_attr("immediate_id"), []), "operand_first: immediate")
+    mem = only(by.get(it.class_attr("memory_id"), []), "operand_first: memory")
+    idents = by.get(it.class_attr("identifier"), [])
+    if len(idents) != 2 or len(alts) != 5:
+        raise TranslateError("operand_first: expected register ^ immediate ^ memory ^ identifier ^ numeric_identifier")
+    ident, num_ident = idents
+    if not reg.same(A["register"]):
+        raise TranslateError("operand_first: register is not self.register")
 
-    # ---- parse_instruction: result["mnemonic"].split(",")[0]; operands appended in which order
-    pi = find_func(tree, "parse_instruction", "ParserX86ATT")
+    # ---- immediate = Group(Literal(sym) + (hex | dec | identifier))
+    g["imm_lits"] = U.literals(imm, lambda n: n.kind not in ("Group", "Combine") or n is imm)
+    if len(g["imm_lits"]) != 1:
+        raise TranslateError("immediate: unexpected shape")
+    nums = [c for c in U.of_kind(imm, "Combine", lambda n: n.kind not in ("Combine",) and (n.kind != "Group" or n is imm))]
+    hexs = [c for c in nums if any(w[0] == "hexnums" for w in _words(c, "hex_number"))]
+    decs = [c for c in nums if c not in hexs]
+    if len(hexs) != 1 or len(decs) != 1:
+        raise TranslateError("decimal_number/hex_number: unexpected shape")
+    hexn, dec = hexs[0], decs[0]
+    g["dec_lits"], g["hex_lits"] = U.literals(dec), U.literals(hexn)
+    g["dec_words"], g["hex_words"] = _words(dec, "decimal_number"), _words(hexn, "hex_number")
+    if len(g["dec_lits"]) != 1 or len(g["dec_words"]) != 1 or len(g["hex_lits"]) != 2 or len(g["hex_words"]) != 1:
+        raise TranslateError("decimal_number/hex_number: unexpected shape")
+
+    # ---- comment
+    comment = A["comment"]
+    g["comment_syms"] = U.literals(comment)
+    g["comment_words"] = _words(comment, "comment")
+    if len(g["comment_words"]) != 1 or not g["comment_syms"]:
+        raise TranslateError("comment: unexpected shape")
+
+    # ---- identifier = Group(Optional(id_offset)("offset") + Combine(delimitedList(Combine(first + Optional(rest)), delim))("name")
+    #                         + Optional(relocation)("relocation") + Optional(Suppress(Optional("+")) + dec)("offset"))
+    def name_words(idn, what):
+        seq = expect(unwrap(idn, "Group", what), "And", what)
+        nm = only([k for k in seq.kids if k.name == "name"], what + ": name")
+        dl = U.of_kind(nm, "delimitedList")
+        ws = U.of_kind(nm, "Word")
+        if len(ws) != 2 or len(dl) != 1:
+            raise TranslateError("%s: unexpected shape" % what)
+        return seq, [d.kw.get("delim") for d in dl], _word_class(ws[0], what), _word_class(ws[1], what)
+
+    iseq, delims, g["first"], g["rest"] = name_words(ident, "identifier")
+    g["delims"] = delims
+    reloc = only([k for k in iseq.kids if k.name == "relocation"], "identifier: relocation")
+    g["reloc_sym"] = U.literals(reloc)
+    g["reloc_word"] = _words(reloc, "relocation")
+    offs = [k for k in iseq.kids if k.name == "offset"]
+    if not offs or offs[0] is not iseq.kids[0]:
+        raise TranslateError("identifier: unexpected shape")
+    g["id_off_sym"] = U.literals(offs[0])
+    if len(delims) != 1 or not isinstance(delims[0], str) or len(g["reloc_sym"]) != 1 or len(g["reloc_word"]) != 1 \
+            or len(g["id_off_sym"]) != 1:
+        raise TranslateError("identifier: unexpected shape")
+    # ---- label = Group((label_identifier | numeric_identifier)("name") + ":" + Optional(comment))
+    lseq = expect(unwrap(A["label"], "Group", "label"), "And", "label")
+    lname = expect(lseq.kids[0], "MatchFirst", "label name", 2)
+    if lname.name != "name" or not lname.kids[1].same(num_ident):
+        raise TranslateError("label: unexpected shape")
+    _, _, lfirst, g["label_rest"] = name_words(lname.kids[0], "label_identifier")
+    if lfirst != g["first"]:
+        raise TranslateError("label: first character class differs from the identifier's")
+    # ---- numeric identifier = Group(Word(nums)("name") + Optional(oneOf(suffixes, caseless)("suffix")))
+    oo = U.of_kind(num_ident, "oneOf")
+    if len(oo) != 1 or not oo[0].args[0]:
+        raise TranslateError("numeric_identifier: no suffix list")
+    g["suffixes"] = list(oo[0].args[0])
+    g["caseless"] = bool(oo[0].kw.get("caseless", False))
+
+    # ---- register
+    g["reg_lits"] = U.literals(A["register"])
+    g["reg_words"] = _words(A["register"], "register")
+    if not g["reg_lits"] or len(g["reg_words"]) != 3:
+        raise TranslateError("register: unexpected shape")
+
+    # ---- memory = Group(offset(base, index, scale){mask} | memory_abs | memory_segmentation | number Empty)
+    malts = expect(unwrap(mem, "Group", "memory"), "MatchFirst", "memory")
+    main = expect(malts.kids[0], "And", "memory: first alternative")
+    g["mem_lits"] = U.literals(main, NO_GROUP)
+    sc = U.named(main, "scale", NO_GROUP)
+    if len(sc) != 1:
+        raise TranslateError("scale: unexpected shape")
+    g["scale"] = _word_class(sc[0], "scale")
+
+    # ---- directive = Group("." + Word("name") + ZeroOrMore(directive_parameter)("parameters") + Optional(comment))
+    dseq = expect(unwrap(A["directive"], "Group", "directive"), "And", "directive")
+    g["dir_lits"] = [U.strarg(k, "directive") for k in dseq.kids if k.kind == "Literal"]
+    g["dir_words"] = [_word_class(k, "directive") for k in dseq.kids if k.kind == "Word"]
+    dparam = only([k for k in dseq.kids if k.name == "parameters"], "directive: parameters")
+    g["dparam_words"] = _words(dparam, "directive_parameter")
+    g["dparam_lits"] = U.literals(dparam)
+    if len(g["dir_lits"]) != 1 or len(g["dir_words"]) != 1 or len(g["dparam_words"]) != 1:
+        raise TranslateError("directive: unexpected shape")
+    return g
+
+
+def _const_true(fenv, node):
+    ok, v = fenv.try_const(node)
+    return ok and v is True
+
+
+def read_parse_instruction(pi, interp):
+    fenv = U.FnEnv(pi, interp)
     split = None
     for n in ast.walk(pi):
-        if (isinstance(n, ast.Subscript) and isinstance(n.value, ast.Call) and isinstance(n.value.func, ast.Attribute)
-                and n.value.func.attr == "split" and n.value.args and isinstance(n.value.args[0], ast.Constant)
-                and isinstance(n.slice, ast.Constant)):
-            split = (n.value.args[0].value, n.slice.value)
+        if isinstance(n, ast.Subscript) and isinstance(n.value, ast.Call) and isinstance(n.value.func, ast.Attribute):
+            c = n.value
+            okk, k = fenv.try_const(n.slice)
+            if c.func.attr in ("split", "partition") and c.args and okk and isinstance(k, int) and not isinstance(k, bool):
+                oks, sep = fenv.try_const(c.args[0])
+                if not oks or not isinstance(sep, str):
+                    continue
+                if c.func.attr == "partition":
+                    if k != 0:
+                        raise TranslateError("parse_instruction: partition(sep)[%d] is not modelled" % k)
+                elif len(c.args) == 2:
+                    okm, m = fenv.try_const(c.args[1])
+                    if not (okm and isinstance(m, int) and m >= 1 and k == 0):
+                        raise TranslateError("parse_instruction: split(sep, n)[k] is not modelled")
+                elif len(c.args) != 1 or c.keywords:
+                    raise TranslateError("parse_instruction: unexpected split arguments")
+                split = (sep, k)
     if split is None:
         raise TranslateError("parse_instruction: mnemonic split(...)[k] not found")
     appended = []
-    for n in ast.walk(pi):
-        if isinstance(n, ast.If) and isinstance(n.test, ast.Compare) and isinstance(n.test.left, ast.Constant) \
-                and isinstance(n.test.ops[0], ast.In) and isinstance(n.test.left.value, str):
-            used = [s.slice.value for s in ast.walk(n) if isinstance(s, ast.Subscript) and isinstance(s.slice, ast.Constant)
-                    and isinstance(s.slice.value, str)]
-            appended.append((n.lineno, n.test.left.value, used))
-    appended.sort()
-    for _, tested, used in appended:
+    def feeds_operands(nodes):      # the block hands the entry to process_operand (not e.g. the comment)
+        return any(U.is_call(x, "process_operand") for n in nodes for x in ast.walk(n))
+
+    for tested, used in U.keyed_blocks(pi, fenv, want=feeds_operands):
         if used != [tested]:
             raise TranslateError("parse_instruction: `if %r in result` appends %r" % (tested, used))
-    appended = [t for _, t, _ in appended]
+        appended.append(tested)
+    pall = [n for n in ast.walk(pi) if U.is_call(n, ("parseString", "parse_string"))]
+    ok_all = bool(pall) and all(_parse_all(fenv, n) for n in pall)
+    return split, appended, ok_all
 
-    # ---- parse_line: order of the four stages, parseAll
-    pl = find_func(tree, "parse_line", "ParserX86ATT")
+
+def _parse_all(fenv, call):
+    vals = [kw.value for kw in call.keywords if kw.arg in ("parseAll", "parse_all")]
+    if len(call.args) > 1:
+        vals.append(call.args[1])
+    return len(vals) == 1 and _const_true(fenv, vals[0])
+
+
+def read_parse_line(pl, interp, instruction_all):
+    fenv = U.FnEnv(pl, interp)
     stages = []
     for n in ast.walk(pl):
         if isinstance(n, ast.Call) and isinstance(n.func, ast.Attribute):
             f = n.func
-            if f.attr in ("parseString", "parse_string") and isinstance(f.value, ast.Attribute):
-                pa = [kw for kw in n.keywords if kw.arg in ("parseAll", "parse_all")]
-                ok = pa and isinstance(pa[0].value, ast.Constant) and pa[0].value.value is True
-                stages.append((n.lineno, f.value.attr + ("" if ok else "!noParseAll")))
+            if f.attr in ("parseString", "parse_string"):
+                who = fenv.resolve(f.value)
+                if not isinstance(who, ast.Attribute):
+                    raise TranslateError("parse_line: parseString on something that is not an attribute of the parser")
+                stages.append((n.lineno, n.col_offset, who.attr + ("" if _parse_all(fenv, n) else "!noParseAll")))
             elif f.attr == "parse_instruction":
-                stages.append((n.lineno, "instruction"))
-    stages = [s for _, s in sorted(stages)]
-    pall = [kw for n in ast.walk(pi) if isinstance(n, ast.Call) and isinstance(n.func, ast.Attribute)
-            and n.func.attr in ("parseString", "parse_string") for kw in n.keywords if kw.arg in ("parseAll", "parse_all")]
-    if not (pall and isinstance(pall[0].value, ast.Constant) and pall[0].value.value is True):
-        stages = [s + ("!noParseAll" if s == "instruction" else "") for s in stages]
+                stages.append((n.lineno, n.col_offset, "instruction" + ("" if instruction_all else "!noParseAll")))
+    return [s for _, _, s in sorted(stages)]
 
+
+def _ctor(fenv, v, name):
+    """`Name(...)` or `Name(...) if <test> else None` (either way round) -> the call"""
+    if U.is_call(v, name=name):
+        return v
+    if isinstance(v, ast.IfExp):
+        for call, other in ((v.body, v.orelse), (v.orelse, v.body)):
+            if U.is_call(call, name=name) and fenv.try_const(other) == (True, None):
+                return call
+    return None
+
+
+def _get_key(fenv, v):
+    """`d.get(K)` / `d.get(K, None)` / `d[K] if K in d else None` -> (True, K)"""
+    if U.is_call(v, "get") and v.args and not v.keywords and len(v.args) <= 2:
+        if len(v.args) == 2 and fenv.try_const(v.args[1]) != (True, None):
+            return False, None
+        return fenv.try_const(v.args[0])
+    if isinstance(v, ast.IfExp) and isinstance(v.test, ast.Compare) and len(v.test.ops) == 1:
+        t, pos, neg = v.test, v.body, v.orelse
+        if isinstance(t.ops[0], ast.NotIn):
+            pos, neg = neg, pos
+        elif not isinstance(t.ops[0], ast.In):
+            return False, None
+        ok, k = fenv.try_const(t.left)
+        if ok and isinstance(pos, ast.Subscript) and fenv.try_const(pos.slice) == (True, k) \
+                and ast.dump(pos.value) == ast.dump(t.comparators[0]) and fenv.try_const(neg) == (True, None):
+            return True, k
+    return False, None
+
+
+def read_memory(pm, interp):
+    fenv = U.FnEnv(pm, interp)
+    r = {}
+    ctor = None
+    for n in ast.walk(pm):
+        if U.is_call(n, name="MemoryOperand"):
+            ctor = n
+    if ctor is None:
+        raise TranslateError("process_memory_address: MemoryOperand(...) not found")
+    # <var> = <anything>.get(<const key>, ...)
+    gets = {}
+    get_list = []
+    regs = {}
+    reg_list = []
+    for line, _col, target, value in fenv.bindings:
+        ok, k = _get_key(fenv, value)
+        if ok and isinstance(k, str):
+            gets.setdefault(target, []).append(k)
+            get_list.append([line, target, k])
+        # <var> = RegisterOperand(name=<src>[<const>], ...)
+        call = _ctor(fenv, value, "RegisterOperand")
+        if call is not None:
+            for kw in call.keywords:
+                if kw.arg == "name" and isinstance(kw.value, ast.Subscript) and isinstance(kw.value.value, ast.Name):
+                    ok, k = fenv.try_const(kw.value.slice)
+                    if ok:
+                        regs.setdefault(target, []).append((kw.value.value.id, k))
+                        reg_list.append([line, target, kw.value.value.id, k])
+    # roles: the MemoryOperand keyword a value reaches
+    role_get, role_reg = {}, {}     # get variable -> role ; RegisterOperand target -> role
+    mem_ctor = []
+    for kw in ctor.keywords:
+        if kw.arg is None:
+            raise TranslateError("process_memory_address: MemoryOperand(**...) is not modelled")
+        if not isinstance(kw.value, ast.Name):
+            mem_ctor.append(kw.arg + "=?")
+            continue
+        v = kw.value.id
+        if v in regs:
+            srcs = sorted(set(s for s, _ in regs[v]))
+            if len(srcs) != 1:
+                raise TranslateError("process_memory_address: %s is built from several registers" % v)
+            if role_reg.setdefault(v, kw.arg) != kw.arg or role_get.setdefault(srcs[0], kw.arg) != kw.arg:
+                raise TranslateError("process_memory_address: one value feeds two MemoryOperand fields")
+            mem_ctor.append("%s=%sOp" % (kw.arg, kw.arg))
+        else:
+            if v in gets and role_get.setdefault(v, kw.arg) != kw.arg:
+                raise TranslateError("process_memory_address: one value feeds two MemoryOperand fields")
+            mem_ctor.append("%s=%s" % (kw.arg, kw.arg))
+    r["mem_ctor"] = sorted(mem_ctor)
+    r["mem_keys"] = [role_get.get(v, v) + "=" + k for _, v, k in get_list]
+    r["reg_ctor"] = ["%s=%s[%s]" % ((role_reg[t] + "Op") if t in role_reg else t, role_get.get(s, s), k)
+                     for _, t, s, k in reg_list]
+    # scale default
+    sv = [kw.value for kw in ctor.keywords if kw.arg == "scale"]
+    default = None
+    if len(sv) == 1 and isinstance(sv[0], ast.Name):
+        name = sv[0].id
+
+        def key_test(t):
+            """`"scale" in m` -> True, `"scale" not in m` -> False"""
+            neg = False
+            while isinstance(t, ast.UnaryOp) and isinstance(t.op, ast.Not):
+                t, neg = t.operand, not neg
+            if isinstance(t, ast.Compare) and len(t.ops) == 1 and isinstance(t.ops[0], (ast.In, ast.NotIn)) \
+                    and fenv.try_const(t.left) == (True, "scale"):
+                return isinstance(t.ops[0], ast.In) != neg
+            return None
+
+        def int_const(n):
+            ok, v = fenv.try_const(n)
+            return v if ok and isinstance(v, int) and not isinstance(v, bool) else None
+
+        found = []
+        values = fenv.assigns.get(name, [])
+        for v in values:
+            if isinstance(v, ast.IfExp) and key_test(v.test) is not None:
+                d = int_const(v.orelse if key_test(v.test) else v.body)
+                if d is not None:
+                    found.append(d)
+            elif v is not None and int_const(v) is not None:
+                found.append(int_const(v))
+            elif U.is_call(v, name="int") and v.args and U.is_call(v.args[0], "get") and len(v.args[0].args) == 2 \
+                    and fenv.try_const(v.args[0].args[0]) == (True, "scale"):
+                okd, dv = fenv.try_const(v.args[0].args[1])
+                okb, bv = fenv.try_const(v.args[1]) if len(v.args) > 1 else (True, 10)
+                if okd and okb:
+                    try:
+                        found.append(int(dv, bv) if isinstance(dv, str) else int(dv))
+                    except (ValueError, TypeError):
+                        pass
+        if len(found) == 1:
+            default = found[0]
+    if not isinstance(default, int):
+        raise TranslateError("process_memory_address: scale default not found")
+    r["scale_default"] = default
+    return r
+
+
+def _int_bases(fn, interp, fname):
+    fenv = U.FnEnv(fn, interp)
+    bases = []
+    for n in sorted((n for n in ast.walk(fn) if U.is_call(n, name="int")), key=lambda n: (n.lineno, n.col_offset)):
+        bnode = n.args[1] if len(n.args) == 2 else None
+        for k in n.keywords:
+            if k.arg == "base" and bnode is None:
+                bnode = k.value
+            else:
+                raise TranslateError("%s: unexpected int() call" % fname)
+        if bnode is not None:
+            ok, v = fenv.try_const(bnode)
+            if not ok or not isinstance(v, int) or isinstance(v, bool):
+                raise TranslateError("%s: unexpected int() call" % fname)
+            bases.append(v)
+        elif len(n.args) == 1:
+            bases.append(10)
+        else:
+            raise TranslateError("%s: unexpected int() call" % fname)
+    return bases
+
+
+@generator("X86Parser", [SRC, BASE])
+def gen_x86parser():
+    tree = parse(SRC)
+    tb = parse(BASE)
+    pcls = U.class_node(tree, "ParserX86ATT")
+    bcls = U.class_node(tb, "BaseParser")
+    g = read_grammar(U.construct(tree, [pcls, bcls]))
+    interp = U.Interp(tree, [pcls, bcls])
+    dec_lits, hex_lits, dec_words, hex_words = g["dec_lits"], g["hex_lits"], g["dec_words"], g["hex_words"]
+    comment_syms, comment_words = g["comment_syms"], g["comment_words"]
+    first, rest, label_rest, delims = g["first"], g["rest"], g["label_rest"], g["delims"]
+    reloc_sym, reloc_word, id_off_sym = g["reloc_sym"], g["reloc_word"], g["id_off_sym"]
+    suffixes, caseless = g["suffixes"], g["caseless"]
+    reg_lits, reg_words, imm_lits, scale, mem_lits = g["reg_lits"], g["reg_words"], g["imm_lits"], g["scale"], g["mem_lits"]
+    dir_lits, dir_words, dparam_words, dparam_lits = g["dir_lits"], g["dir_words"], g["dparam_words"], g["dparam_lits"]
+    mn_prefixes, mn_word, op_names, ins_seps = g["mn_prefixes"], [g["mn_word"]], g["op_names"], g["ins_seps"]
+
+    # ---- parse_instruction: result["mnemonic"].split(",")[0]; operands appended in which order
+    split, appended, instruction_all = read_parse_instruction(U.method(pcls, "parse_instruction"), interp)
+    # ---- parse_line: order of the four stages, parseAll
+    stages = read_parse_line(U.method(pcls, "parse_line"), interp, instruction_all)
     # ---- process_memory_address / process_immediate: int(x, base) and the scale default
     bases = []
     for fname in ("process_memory_address", "process_immediate"):
-        fn = find_func(tree, fname, "ParserX86ATT")
-        for n in sorted((n for n in ast.walk(fn) if isinstance(n, ast.Call) and isinstance(n.func, ast.Name) and n.func.id == "int"),
-                        key=lambda n: (n.lineno, n.col_offset)):
-            if len(n.args) == 2 and isinstance(n.args[1], ast.Constant):
-                bases.append(n.args[1].value)
-            elif len(n.args) == 1:
-                bases.append(10)
-            else:
-                raise TranslateError("%s: unexpected int() call" % fname)
-    pm = find_func(tree, "process_memory_address", "ParserX86ATT")
-    scale_default = None
-    for n in ast.walk(pm):
-        if isinstance(n, ast.Assign) and isinstance(n.targets[0], ast.Name) and n.targets[0].id == "scale" and isinstance(n.value, ast.IfExp):
-            ie = n.value
-            # `D if "scale" not in m else int(...)`  or  `int(...) if "scale" in m else D`
-            t = ie.test
-            if isinstance(t, ast.Compare) and isinstance(t.left, ast.Constant) and t.left.value == "scale":
-                if isinstance(t.ops[0], ast.NotIn) and isinstance(ie.body, ast.Constant):
-                    scale_default = ie.body.value
-                elif isinstance(t.ops[0], ast.In) and isinstance(ie.orelse, ast.Constant):
-                    scale_default = ie.orelse.value
-    if not isinstance(scale_default, int):
-        raise TranslateError("process_memory_address: scale default not found")
-    # which parse-result keys feed offset/base/index
-    mem_keys = []
-    for n in ast.walk(pm):
-        if isinstance(n, ast.Assign) and isinstance(n.targets[0], ast.Name) and isinstance(n.value, ast.Call) \
-                and isinstance(n.value.func, ast.Attribute) and n.value.func.attr == "get" and n.value.args \
-                and isinstance(n.value.args[0], ast.Constant):
-            mem_keys.append((n.lineno, n.targets[0].id + "=" + n.value.args[0].value))
-    mem_keys = [k for _, k in sorted(mem_keys)]
-    # MemoryOperand(offset=offset, base=baseOp, index=indexOp, scale=scale)
-    mem_ctor = []
-    for n in ast.walk(pm):
-        if isinstance(n, ast.Call) and isinstance(n.func, ast.Name) and n.func.id == "MemoryOperand":
-            mem_ctor = sorted(kw.arg + "=" + (kw.value.id if isinstance(kw.value, ast.Name) else "?") for kw in n.keywords)
-    # RegisterOperand(name=base["name"] ...) for base / index
-    reg_ctor = []
-    for n in ast.walk(pm):
-        if isinstance(n, ast.Assign) and isinstance(n.value, ast.Call) and isinstance(n.value.func, ast.Name) \
-                and n.value.func.id == "RegisterOperand" and isinstance(n.targets[0], ast.Name):
-            for kw in n.value.keywords:
-                if kw.arg == "name" and isinstance(kw.value, ast.Subscript) and isinstance(kw.value.value, ast.Name) \
-                        and isinstance(kw.value.slice, ast.Constant):
-                    reg_ctor.append((n.lineno, "%s=%s[%s]" % (n.targets[0].id, kw.value.value.id, kw.value.slice.value)))
-    reg_ctor = [k for _, k in sorted(reg_ctor)]
+        bases += _int_bases(U.method(pcls, fname), interp, fname)
+    m = read_memory(U.method(pcls, "process_memory_address"), interp)
+    scale_default, mem_keys, mem_ctor, reg_ctor = m["scale_default"], m["mem_keys"], m["mem_ctor"], m["reg_ctor"]
 
     # ---- parse_file
-    tb = parse(BASE)
-    pf = find_func(tb, "parse_file", "BaseParser")
-    sep = None
-    for n in ast.walk(pf):
-        if isinstance(n, ast.Call) and isinstance(n.func, ast.Attribute) and n.func.attr == "split" and n.args \
-                and isinstance(n.args[0], ast.Constant):
-            sep = n.args[0].value
-    if sep is None:
-        raise TranslateError("parse_file: split(<literal>) not found")
-    enum_start = None
-    for n in ast.walk(pf):
-        if isinstance(n, ast.Call) and isinstance(n.func, ast.Name) and n.func.id == "enumerate":
-            enum_start = 0
-            if len(n.args) > 1 and isinstance(n.args[1], ast.Constant):
-                enum_start = n.args[1].value
-            for kw in n.keywords:
-                if kw.arg == "start" and isinstance(kw.value, ast.Constant):
-                    enum_start = kw.value.value
-    if enum_start is None:
-        raise TranslateError("parse_file: enumerate(...) not found")
-    # line-number expression: sum of the loop index, start_line and integer literals
-    lineno_const = None
-    lineno_terms = None
-    for n in ast.walk(pf):
-        if isinstance(n, ast.Call) and isinstance(n.func, ast.Attribute) and n.func.attr == "parse_line" and len(n.args) == 2:
-            terms, const = [], 0
-
-            def walk_sum(e, sign=1):
-                nonlocal const
-                if isinstance(e, ast.BinOp) and isinstance(e.op, ast.Add):
-                    walk_sum(e.left, sign)
-                    walk_sum(e.right, sign)
-                elif isinstance(e, ast.BinOp) and isinstance(e.op, ast.Sub):
-                    walk_sum(e.left, sign)
-                    walk_sum(e.right, -sign)
-                elif isinstance(e, ast.Constant) and isinstance(e.value, int):
-                    const += sign * e.value
-                elif isinstance(e, ast.Name) and sign == 1:
-                    terms.append(e.id)
-                else:
-                    raise TranslateError("parse_file: unexpected line-number expression")
-
-            walk_sum(n.args[1])
-            lineno_const, lineno_terms = const, sorted(terms)
-            first_arg = n.args[0].id if isinstance(n.args[0], ast.Name) else "?"
-    if lineno_const is None or lineno_const < 0:
+    pf = U.read_parse_file(U.method(bcls, "parse_file"), U.Interp(tb, [bcls]))
+    sep, enum_start, lineno_const, lineno_terms, blank = pf["sep"], pf["enum_start"], pf["const"], pf["terms"], pf["blank"]
+    if lineno_const < 0:
         raise TranslateError("parse_file: parse_line(line, <number>) not found")
-    # blank test: `<x>.strip() == ""` followed by continue
-    blank = None
-    for n in ast.walk(pf):
-        if isinstance(n, ast.If) and isinstance(n.test, ast.Compare) and len(n.test.ops) == 1 \
-                and isinstance(n.test.ops[0], ast.Eq) and isinstance(n.test.comparators[0], ast.Constant) \
-                and n.test.comparators[0].value == "" and isinstance(n.test.left, ast.Call) \
-                and isinstance(n.test.left.func, ast.Attribute) and n.test.left.func.attr in ("strip", "lstrip", "rstrip") \
-                and not n.test.left.args and any(isinstance(b, ast.Continue) for b in n.body):
-            blank = n.test.left.func.attr
-    if blank is None:
-        raise TranslateError("parse_file: blank-line test not found")
+    first_arg = "line" if pf["line_is_element"] else "?"
 
     # ---- grammar digests
     dump = _grammar_digests()
